@@ -128,6 +128,17 @@ def verify_function(world, qualname, timeout_ms=20000, max_paths=3000, only_path
                 run.inline_stack.pop()
             if outcome[0] == 'return':
                 values['result'] = outcome[1]
+                for m in c.modifies:
+                    # final value of a modified parameter (objects are updated in place)
+                    values[m] = env.vars.get(m, values[m])
+                if c.pure_result is not None:
+                    run.spec_mode += 1
+                    try:
+                        want = run.call_spec(world.specs[c.pure_result[0]], [values[a] for a in c.pure_result[1:]])
+                    finally:
+                        run.spec_mode -= 1
+                    run.prove(run.z(outcome[1], c.returns) == run.z(want, c.returns),
+                              'post:%s:pure_result' % qualname, 'post')
                 for lbl, fn in c.ensures:
                     cl = run.tobool(run.eval_clause(c, fn, values))
                     conj = cl.children() if z3.is_and(cl) else [cl]
